@@ -21,7 +21,8 @@ CHECKS = {
     "C11": dict(
         cat="proof",
         text="hdc/algo/dekad.py is translated to Gallina on every run (tools/translate_dekad.py, Python ast, fail-closed) and "
-             "the 14 theorems of coq/tied/C11.v (partition of the calendar, uniqueness, abutting, ndays, raw/ymd/label "
+             "the 16 theorems of coq/tied/C11.v (partition of the calendar, uniqueness, abutting, ndays, whole-day spans from midnight, the 36 "
+             "dekads of a year spanning exactly its 365/366 days, raw/ymd/label "
              "inverses, chronological order, hash, integer translations; all integers k, no year bound except the label "
              "codec 0..9999) are re-proved against the regenerated definitions. The running class and the .dekad accessor "
              "are compared with an independent calendar over all 3,652,059 dates and 359,964 dekads (thorough; a stratified "
